@@ -245,7 +245,99 @@ func genClock(repo, out string) error {
 			}
 		}
 	}
-	body := fmt.Sprintf("Definition gen_numeric_globals : list (string * string) := [%s].\n", strings.Join(globals, ";\n  "))
+	// (d) package-level variables that function bodies assign to: state that lives as long as the process, not as long as
+	// the chain — what a block computes must not depend on what the process did before (a restarted node has done nothing)
+	pkgVars := map[string]map[string]bool{} // package dir -> names
+	for _, n := range names {
+		dir := filepath.Dir(n)
+		for _, d := range files[n].Decls {
+			if gd, ok := d.(*ast.GenDecl); ok && gd.Tok == token.VAR {
+				for _, sp := range gd.Specs {
+					if vs, ok := sp.(*ast.ValueSpec); ok {
+						for _, id := range vs.Names {
+							if id.Name != "_" {
+								if pkgVars[dir] == nil {
+									pkgVars[dir] = map[string]bool{}
+								}
+								pkgVars[dir][id.Name] = true
+							}
+						}
+					}
+				}
+			}
+		}
+	}
+	var written []string
+	seenW := map[string]bool{}
+	for _, n := range names {
+		if strings.HasSuffix(n, ".pb.go") || strings.HasSuffix(n, ".pb.gw.go") {
+			continue
+		}
+		vars := pkgVars[filepath.Dir(n)]
+		for _, d := range files[n].Decls {
+			fd, ok := d.(*ast.FuncDecl)
+			if !ok || fd.Body == nil {
+				continue
+			}
+			isPkgVar := func(e ast.Expr) (string, bool) {
+				for {
+					switch t := e.(type) {
+					case *ast.SelectorExpr:
+						e = t.X
+						continue
+					case *ast.IndexExpr:
+						e = t.X
+						continue
+					case *ast.StarExpr:
+						e = t.X
+						continue
+					case *ast.ParenExpr:
+						e = t.X
+						continue
+					case *ast.Ident:
+						if !vars[t.Name] {
+							return "", false
+						}
+						// resolved to a local declaration?
+						if t.Obj != nil {
+							if _, top := t.Obj.Decl.(*ast.ValueSpec); !top {
+								return "", false
+							}
+							if vs, ok := t.Obj.Decl.(*ast.ValueSpec); ok && fd.Body.Pos() <= vs.Pos() && vs.End() <= fd.Body.End() {
+								return "", false
+							}
+						}
+						return t.Name, true
+					}
+					return "", false
+				}
+			}
+			note := func(e ast.Expr) {
+				if name, ok := isPkgVar(e); ok {
+					k := n + "#" + funcName(fd) + "#" + name
+					if !seenW[k] {
+						seenW[k] = true
+						written = append(written, fmt.Sprintf("(%s, %s, %s)", coqString(n), coqString(funcName(fd)), coqString(name)))
+					}
+				}
+			}
+			ast.Inspect(fd.Body, func(x ast.Node) bool {
+				switch t := x.(type) {
+				case *ast.AssignStmt:
+					if t.Tok != token.DEFINE {
+						for _, l := range t.Lhs {
+							note(l)
+						}
+					}
+				case *ast.IncDecStmt:
+					note(t.X)
+				}
+				return true
+			})
+		}
+	}
+	body0 := fmt.Sprintf("Definition gen_written_globals : list (string * string * string) := [%s].\n", strings.Join(written, ";\n  "))
+	body := body0 + fmt.Sprintf("Definition gen_numeric_globals : list (string * string) := [%s].\n", strings.Join(globals, ";\n  "))
 	body += fmt.Sprintf("Definition gen_clock_sites : list (string * string * string * string) := [%s].\nDefinition gen_map_ranges : list (string * string * string) := [%s].\n",
 		strings.Join(clock, ";\n  "), strings.Join(ranges, ";\n  "))
 	return writeV(out, "Clock.v", body)
